@@ -90,6 +90,7 @@ type Path struct {
 	nViol          int
 	chooseN        int // number of non-forced choose decisions (shape)
 	stdout         value
+	pendingGo      []pendingGoroutine
 	tzShift        map[*Term]*Term // instants read in the local zone -> the UTC instant with the same wall-clock reading
 	onSend         value           // verifOnSend: the consumer's reaction, run at every send of the producer
 	inSendHook     bool
